@@ -190,6 +190,27 @@ fn case(cfg: &Config, tmp: &Path, idx: u64, r: &mut Rng, st: &mut Stats) {
         }
     }
     let flags = Flags::random(r);
+    if r.chance(1, 8) {
+        // an argument that does not exist (a typo, a dangling link) must be reported, whatever
+        // its extension and position: silently dropping it would shift the roles of the others
+        let ghost = ["nofile.lp", "raech.spec", "missing.ug", "gone.po", "nodir", "d1/none.lp"][r.upto(6)];
+        let mut with_ghost = args.clone();
+        with_ghost.insert(r.upto(with_ghost.len() + 1), ghost.to_string());
+        if ghost == "gone.po" && r.chance(1, 2) {
+            let _ = std::os::unix::fs::symlink(work.join("does-not-exist"), work.join("gone.po"));
+        }
+        if let Some((code, _so, files)) = run_verify(cfg, &work, equivalence, flags, &with_ghost, &d.join("out_g")) {
+            st.inc("cli_runs");
+            st.inc("runs_with_a_nonexistent_argument");
+            if code == Some(0) || !files.is_empty() {
+                st.eval(None);
+                st.violation("nonexistent-argument-ignored", format!("the arguments {:?} contain a path that does not exist; anthem exited with {:?} and wrote {} problems", with_ghost, code, files.len()), J::obj().set("arguments", J::strs(&with_ghost)).set("files", J::strs(&used)));
+            } else {
+                st.eval(Some(&format!("ghost|{}|{:?}", ghost, with_ghost)));
+            }
+        }
+        let _ = std::fs::remove_file(work.join("gone.po"));
+    }
     let a = run_verify(cfg, &work, equivalence, flags, &args, &d.join("out_a"));
     let b = run_verify(cfg, &canon, equivalence, flags, &canon_files, &d.join("out_b"));
     st.add("cli_runs", 2);
